@@ -728,9 +728,10 @@ def run(ctx):
         "(all-pairs overlap, brute-force gcd, loops) run on every case. Non-trivial = distinct canonical "
         "triangle with >= 2 cells or an error branch hit.")
     ctx.assumptions += [
-        "Metadata.__lt__ (owned by C01) is only used through the hypothesis 'the cells are sorted metadata-major'; "
-        "the check compares `metadata` with the model's first-occurrence list and tests sortedness under the "
-        "implementation's own <",
+        "Metadata.__lt__ / __eq__ are C01's Order.meta_cmp / meta_pyeq: C13_metadata_canonical instantiates the "
+        "sortedness of `metadata` with them for every constructor output (comparable cells), and the model's own "
+        "Python == is proved equal to Order.meta_pyeq on metadata with unique dict keys; the check compares "
+        "`metadata` with the model's first-occurrence list and tests sortedness under the implementation's own <",
         "month-unit statements are about month-aligned cells, where dev_lag_months is the integer month-id "
         "difference (C12: lag_month_ends_exact, 1970-2100; F10 before 1970); on other cells only day-unit statements "
         "are tied; the month-unit closed forms hold for every date of year >= 1 (Proofs/CalendarP.v)",
@@ -739,7 +740,7 @@ def run(ctx):
     ]
     # 1. static theorems
     ctx.audit_tree(["Model/Accessors.v", "Proofs/Accessors.v", "Proofs/AccessorsTax.v", "Proofs/AccessorsCal.v",
-                    "Proofs/AccessorsGen.v", "Props/C13.v", "GenProps/C13_Gen.v", "GenProps/C13_Tie.v"])
+                    "Proofs/AccessorsGen.v", "Proofs/AccessorsOrder.v", "Props/C13.v", "GenProps/C13_Gen.v", "GenProps/C13_Tie.v"])
     ctx.prove_static("Props/C13.v", timeout=600)
     # 2. decision tokens regenerated from source
     translate_and_prove(ctx)
